@@ -1,3 +1,62 @@
-From NP Require Import Base.
-Theorem placeholder_C04 : True. Proof. exact I. Qed.
-Print Assumptions placeholder_C04.
+(* C04 — behaviour does not depend on physical layout or construction history.
+   Two physical columns (any chunking, any offsets bases, any encoding of missing rows that hides no child
+   values, whatever their history) that denote the same logical column are indistinguishable by ANY history of
+   operations of the alphabet of Steps.v (selection, take, concat, copy, dropna, pickle, element assignment, field
+   edits, list-struct round trip): same logical results step by step, or both fail.  It is a corollary of the
+   all-layout refinement theorems; the one layout hypothesis the refinement needs (norm_missing, part of inv_b) cannot be
+   dropped: C04_hidden_refuted exhibits two layouts of ONE logical column that the faithful model (and the real code,
+   known finding KF-hidden-children) tells apart. *)
+From Coq Require Import String List Arith Bool ZArith.
+Import ListNotations.
+From NP Require Import Base Values Arrow Abs Kernels Logical ExtArray Codec Steps
+  Proofs_Views Proofs_Codec Proofs_Steps.
+From NP Require Import Props.C03.
+
+Theorem C04_layout_independence : forall ops p1 p2,
+  inv_b p1 = true -> inv_b p2 = true -> abs p1 = abs p2 ->
+  ops_ok p1 ops = true -> ops_ok p2 ops = true ->
+  res_map abs (m_run p1 ops) = res_map abs (m_run p2 ops).
+Proof. exact layout_independence. Qed.
+Print Assumptions C04_layout_independence.
+
+(* the read-only views too: they are functions of abs p alone (C03), hence equal on equal logical columns *)
+Theorem C04_views_layout_independent : forall p1 p2,
+  inv_b p1 = true -> inv_b p2 = true -> abs p1 = abs p2 ->
+  m_list_lengths p1 = m_list_lengths p2 /\ m_flat_length p1 = m_flat_length p2
+  /\ m_get_list_index p1 = m_get_list_index p2
+  /\ res_map diffs (m_list_offsets p1) = res_map diffs (m_list_offsets p2)
+  /\ m_list_struct_rows p1 = m_list_struct_rows p2.
+Proof.
+  intros p1 p2 H1 H2 E.
+  pose proof (inv_chunks p1 H1) as C1. pose proof (inv_chunks p2 H2) as C2.
+  assert (W1 : wf_b p1 = true /\ norm_missing_all_b p1 = true).
+  { unfold inv_b in H1. rewrite !andb_true_iff in H1. tauto. }
+  assert (W2 : wf_b p2 = true /\ norm_missing_all_b p2 = true).
+  { unfold inv_b in H2. rewrite !andb_true_iff in H2. tauto. }
+  destruct W1 as [W1 N1], W2 as [W2 N2].
+  rewrite (C03_list_lengths p1 W1 N1 C1), (C03_list_lengths p2 W2 N2 C2),
+          (C03_flat_length p1 W1 N1 C1), (C03_flat_length p2 W2 N2 C2),
+          (C03_get_list_index p1 W1 N1 C1), (C03_get_list_index p2 W2 N2 C2),
+          (C03_list_offsets p1 W1 N1 C1), (C03_list_offsets p2 W2 N2 C2),
+          (Proofs_Transpose.export_rows p1 H1), (Proofs_Transpose.export_rows p2 H2), E.
+  repeat split; reflexivity.
+Qed.
+Print Assumptions C04_views_layout_independent.
+
+Definition plain_witness : chunked :=
+  {| ctype := [("a"%string, TI64)];
+     chunks := [ {| svalid := [true; false];
+                    sfields := [ {| fname := "a"%string; fty := TI64;
+                                    farr := {| offs := [0; 1; 1]; lvalid := [true; false];
+                                               child := [VInt 1] |} |} ] |} ] |}.
+Theorem C04_hidden_refuted : exists p1 p2,
+  wf_b p1 = true /\ wf_b p2 = true /\ abs p1 = abs p2 /\ m_list_offsets p1 <> m_list_offsets p2.
+Proof. exists hidden_witness, plain_witness. repeat split; try reflexivity. vm_compute. discriminate. Qed.
+Print Assumptions C04_hidden_refuted.
+
+(* non-vacuity: two genuinely different layouts of one logical column, both satisfying the invariant *)
+Definition sample_col_one_chunk : chunked := k_combine_chunks sample_col.
+Example C04_hypotheses_satisfiable :
+  inv_b sample_col = true /\ inv_b sample_col_one_chunk = true
+  /\ abs sample_col = abs sample_col_one_chunk /\ chunks sample_col <> chunks sample_col_one_chunk.
+Proof. split; [reflexivity|]. split; [reflexivity|]. split; [reflexivity|]. vm_compute. discriminate. Qed.
